@@ -217,8 +217,13 @@ func (s *FastModularNetworkSolver) recursiveActivateNode(currentNode int) (res b
 	s.inActivation[currentNode] = false
 
 	// Set this signal after running it through the activation function
+	signal := s.neuronSignalsBeingProcessed[currentNode]
+	if s.biasNeuronCount > 0 {
+		// append BIAS value to the signal if appropriate (the weights of bias links are folded into biasList)
+		signal += s.biasList[currentNode]
+	}
 	if s.neuronSignals[currentNode], err = neatmath.NodeActivators.ActivateByType(
-		s.neuronSignalsBeingProcessed[currentNode], nil,
+		signal, nil,
 		s.activationFunctions[currentNode]); err != nil {
 		// failed to activate
 		res = false
